@@ -37,6 +37,27 @@ theorem rem_bounds (a b : Int) (ha : 0 ≤ a) (hb : 0 < b) : 0 ≤ rem a b ∧ r
   rw [rem_nonneg ha]
   exact ⟨Int.emod_nonneg _ (by omega), Int.emod_lt_of_pos _ hb⟩
 
+/-- multiplication is computed modulo 2^64: wrapping a factor first changes nothing -/
+theorem wrap64_mul_wrap64 (a b : Int) : wrap64 (a * wrap64 b) = wrap64 (a * b) := by
+  unfold wrap64
+  have h : (b + 2^63) % 2^64 = b + 2^63 - 2^64 * ((b + 2^63) / 2^64) := by
+    have := Int.emod_add_mul_ediv (b + 2^63) (2^64)
+    omega
+  rw [h]
+  have e : a * (b + 2 ^ 63 - 2 ^ 64 * ((b + 2 ^ 63) / 2 ^ 64) - 2 ^ 63) + 2 ^ 63
+      = (a * b + 2^63) + 2^64 * (-(a * ((b + 2 ^ 63) / 2 ^ 64))) := by
+    simp only [Int.mul_sub, Int.mul_add, Int.mul_neg]
+    have : a * (2 ^ 64 * ((b + 2 ^ 63) / 2 ^ 64)) = 2 ^ 64 * (a * ((b + 2 ^ 63) / 2 ^ 64)) := by
+      rw [← Int.mul_assoc, Int.mul_comm a (2^64), Int.mul_assoc]
+    omega
+  rw [e, Int.add_mul_emod_self_left]
+
+/-- `x << k` written as a multiplication by a power of two -/
+theorem mul_wrap_shl_one (a k : Int) : mul a (wrap64 (shl 1 k)) = shl a k := by
+  unfold mul shl
+  split
+  · simp [wrap64]
+  · rw [wrap64_mul_wrap64, wrap64_mul_wrap64, Int.one_mul]
 /-- saturation to the int64 range (what `time.Time.Sub`, `time.Until`, `time.Since` do) -/
 def sat (x : Int) : Int := if x < -(2^63) then -(2^63) else if x ≥ 2^63 then 2^63 - 1 else x
 
